@@ -26,10 +26,13 @@ func (k msgServer) VoteGauge(ctx context.Context, msg *types.MsgVoteGauge) (*typ
 		if weight.IsNegative() {
 			return nil, errorsmod.Wrapf(types.ErrInvalidWeight, "negative weight (pool %d)", poolWeight.PoolId)
 		}
+		if weight.GT(math.LegacyOneDec()) {
+			return nil, errorsmod.Wrapf(types.ErrInvalidWeight, "weight greater than one (pool %d)", poolWeight.PoolId)
+		}
 		totalWeight = totalWeight.Add(weight)
-	}
-	if totalWeight.GT(math.LegacyOneDec()) {
-		return nil, errorsmod.Wrapf(types.ErrTotalWeightGTOne, "total weight: %s", totalWeight.String())
+		if totalWeight.GT(math.LegacyOneDec()) {
+			return nil, errorsmod.Wrapf(types.ErrTotalWeightGTOne, "total weight: %s", totalWeight.String())
+		}
 	}
 	// end static validation
 
